@@ -195,7 +195,7 @@ def run(ctx, R, tier):
             seen_persist.add(dec.get('persist'))
             if dec.get('persist') is True:
                 good = (ret == 'False' and dec.get('marked') is False) or \
-                       ('ResourceStorage::<T>::is_empty' in ret and dec.get('marked') is True)
+                       (ret.startswith('backend::resources::ResourceStorage::<T>::is_empty(') and '.sounds' in ret and dec.get('marked') is True)
                 if not good:
                     ok = False
                     why = 'persist branch returns %s with decisions %s' % (ret, dec)
@@ -210,6 +210,11 @@ def run(ctx, R, tier):
             ok = False
             why = why or 'persist_until_sounds_finish is not branched on'
         R.check(ok, 'B.C12.remove', 'path-predicate', why, detail={'paths': len(prs)}, where=rb.file)
+        ie = F.body('backend::resources::ResourceStorage::<T>::is_empty')
+        if R.check(ie is not None, 'B.C12.remove', 'anchor:is_empty', 'ResourceStorage::is_empty not found'):
+            rets = [str(p.ret) for p in explore(ie) if p.end == 'return']
+            R.check(rets == ['atomic_arena::Arena::<T>::is_empty(&(*self).resources)'], 'B.C12.remove', 'is_empty',
+                    'ResourceStorage::is_empty returns %s, not whether its arena is empty' % rets, detail={'returns': rets})
         # the any() closure negates the recursive call
         cl = [c for c in F.closures_of(rb.path)]
         okc = False
